@@ -133,6 +133,7 @@ type DPResult struct {
 	ELit   []byte   `json:"elit,omitempty"`
 	EPos   [3]int   `json:"epos,omitempty"`
 	Exp    []string `json:"exp,omitempty"`
+	ExpAfter []string `json:"exp_after,omitempty"`
 	Custom int      `json:"custom,omitempty"`
 	Msg    string   `json:"msg,omitempty"`
 	Types  []string `json:"types,omitempty"`
